@@ -431,3 +431,229 @@ impl Hook<Plain> for SerdeHook {
         out
     }
 }
+
+// ======================================================================= C17
+
+/// Observation battery: logs *every* observable of the core API into a digest
+/// that must be identical in every feature set.
+#[derive(Default)]
+pub struct BatteryHook {
+    pub d: crate::rng::Digest,
+    pub observations: u64,
+}
+
+impl BatteryHook {
+    #[allow(deprecated)]
+    fn observe<P: Payload + std::fmt::Display>(&mut self, st: &State<P>, info: &StepInfo<P>) -> Result<(), String> {
+        use crate::exec::{Outcome, Ret};
+        let d = &mut self.d;
+        d.s(&info.op.to_text());
+        d.s(&info.outcome.text());
+        match &info.outcome {
+            Outcome::Ret(Ret::Res(Err(e))) => {
+                d.s(&format!("{}", e));
+                d.s(&format!("{:?}", e));
+            }
+            Outcome::Ret(Ret::Id(id)) => {
+                d.s(&id.to_string());
+                d.u(usize::from(*id) as u64);
+                d.s(&format!("{:?}", id));
+            }
+            _ => {}
+        }
+        let a = &st.arena;
+        d.u(a.count() as u64);
+        d.u(a.is_empty() as u64);
+        let bound = 2 * a.count() + 3;
+        for (i, n) in a.iter().enumerate() {
+            d.u(n.is_removed() as u64);
+            d.s(&format!("{}", n));
+            if n.is_removed() {
+                continue;
+            }
+            let id = a.get_node_id(n).ok_or("get_node_id None")?;
+            d.u(usize::from(id) as u64);
+            d.u((a.get_node_id_at(std::num::NonZeroUsize::new(i + 1).unwrap()) == Some(id)) as u64);
+            d.u(id.is_removed(a) as u64);
+            d.u(n.get().tid());
+            d.u(n.get().val());
+            for x in id.ancestors(a).take(bound) { d.u(usize::from(x) as u64) }
+            d.u(1 << 40);
+            for x in id.predecessors(a).take(bound) { d.u(usize::from(x) as u64) }
+            d.u(2 << 40);
+            for x in id.preceding_siblings(a).take(bound) { d.u(usize::from(x) as u64) }
+            d.u(3 << 40);
+            for x in id.following_siblings(a).take(bound) { d.u(usize::from(x) as u64) }
+            d.u(4 << 40);
+            for x in id.following_siblings(a).rev().take(bound) { d.u(usize::from(x) as u64) }
+            d.u(5 << 40);
+            for x in id.children(a).take(bound) { d.u(usize::from(x) as u64) }
+            d.u(6 << 40);
+            for x in id.children(a).rev().take(bound) { d.u(usize::from(x) as u64) }
+            d.u(7 << 40);
+            for x in id.reverse_children(a).take(bound) { d.u(usize::from(x) as u64) }
+            d.u(8 << 40);
+            for x in id.descendants(a).take(bound) { d.u(usize::from(x) as u64) }
+            d.u(9 << 40);
+            for e in id.traverse(a).take(bound) { d.s(&format!("{:?}", e)) }
+            d.u(10 << 40);
+            for e in id.reverse_traverse(a).take(bound) { d.s(&format!("{:?}", e)) }
+            if n.parent().is_none() || i % 3 == 0 {
+                d.s(&format!("{}", id.debug_pretty_print(a)));
+                d.s(&format!("{:#}", id.debug_pretty_print(a)));
+                d.s(&format!("{:?}", id.debug_pretty_print(a)));
+                d.s(&format!("{:#?}", id.debug_pretty_print(a)));
+            }
+            self.observations += 14;
+        }
+        Ok(())
+    }
+}
+
+impl<P: Payload + std::fmt::Display + Sync> Hook<P> for BatteryHook {
+    fn after_step(&mut self, _ctx: &Ctx, st: &mut State<P>, info: &StepInfo<P>, _heavy: bool, _rng: &mut Rng, cov: &mut Cov) -> Vec<Finding> {
+        let before = self.observations;
+        let r = guarded(|| self.observe(st, info));
+        let mut out = Vec::new();
+        match r {
+            Ok(Ok(())) => {}
+            Ok(Err(e)) => out.push(Finding::new(&["C17"], "battery/observation-failed".into(), e)),
+            Err(p) => out.push(Finding::new(&["C17"], "battery/panic".into(), p)),
+        }
+        cov.evaluations += 1;
+        cov.observations += self.observations - before;
+        #[cfg(feature = "par_iter")]
+        {
+            use rayon::prelude::*;
+            let r = guarded(|| {
+                let a = &st.arena;
+                let seq: Vec<*const indextree::Node<P>> = a.iter().map(|n| n as *const _).collect();
+                let par: Vec<usize> = a.par_iter().map(|n| n as *const indextree::Node<P> as usize).collect();
+                let seq_u: Vec<usize> = seq.iter().map(|p| *p as usize).collect();
+                if par != seq_u {
+                    return Some(format!("par_iter().collect() visits {} nodes / different order than iter() ({} nodes)", par.len(), seq_u.len()));
+                }
+                let cnt = std::sync::atomic::AtomicUsize::new(0);
+                let live = std::sync::atomic::AtomicUsize::new(0);
+                a.par_iter().for_each(|n| {
+                    cnt.fetch_add(1, std::sync::atomic::Ordering::Relaxed);
+                    if !n.is_removed() {
+                        live.fetch_add(1, std::sync::atomic::Ordering::Relaxed);
+                    }
+                });
+                if cnt.into_inner() != a.count() || live.into_inner() != st.model.live_count() {
+                    return Some("par_iter().for_each visited a different number of nodes than count()".to_string());
+                }
+                None
+            });
+            match r {
+                Ok(None) => cov.bump("par_iter_comparisons"),
+                Ok(Some(e)) => out.push(Finding::new(&["C17"], "battery/par_iter-differs".into(), e)),
+                Err(p) => out.push(Finding::new(&["C17"], "battery/par_iter-panic".into(), p)),
+            }
+        }
+        out
+    }
+}
+
+/// with feature `macros`: a tree built by `tree!` equals the hand-built one
+#[cfg(feature = "macros")]
+pub fn macro_battery() -> Result<u64, String> {
+    use indextree::macros::tree;
+    let mut a: Arena<Plain> = Arena::new();
+    let p = |t: u64| Plain { tid: t, val: t };
+    let r = tree!(&mut a, p(0) => { p(1), p(2) => { p(3) => { p(4) }, p(5), }, p(6) => {}, });
+    let mut b: Arena<Plain> = Arena::new();
+    let r0 = b.new_node(p(0));
+    let n1 = b.new_node(p(1));
+    r0.append(n1, &mut b);
+    let n2 = r0.append_value(p(2), &mut b);
+    let n3 = n2.append_value(p(3), &mut b);
+    n3.append_value(p(4), &mut b);
+    n2.append_value(p(5), &mut b);
+    r0.append_value(p(6), &mut b);
+    if a != b || r != r0 {
+        return Err("tree! result differs from the hand-built tree".into());
+    }
+    Ok(7)
+}
+
+// ======================================================================= C18
+
+/// Read-only observation battery over a shared `&Arena`: everything a reader
+/// can observe, folded into a digest.  `yield_seed` != 0 injects `yield_now`
+/// at pseudo-random points (between reads, never inside one).
+#[allow(deprecated)]
+pub fn read_battery<P: Payload + std::fmt::Display>(a: &Arena<P>, yield_seed: u64, stamp: &dyn Fn()) -> crate::rng::Digest {
+    let mut d = crate::rng::Digest::default();
+    let mut r = Rng::new(yield_seed);
+    let mut maybe_yield = |r: &mut Rng| {
+        if yield_seed != 0 && r.chance(1, 5) {
+            std::thread::yield_now();
+        }
+    };
+    let bound = 2 * a.count() + 3;
+    d.u(a.count() as u64);
+    for (i, n) in a.iter().enumerate() {
+        d.u(n.is_removed() as u64);
+        d.s(&format!("{}", n));
+        if n.is_removed() {
+            continue;
+        }
+        stamp();
+        let id = a.get_node_id(n).expect("get_node_id");
+        d.u(usize::from(id) as u64);
+        d.u((a.get_node_id_at(std::num::NonZeroUsize::new(i + 1).unwrap()) == Some(id)) as u64);
+        d.u((a.get(id).map(|x| x as *const _) == Some(n as *const _)) as u64);
+        d.u(id.is_removed(a) as u64);
+        d.u(n.get().tid());
+        d.u(n.get().val());
+        maybe_yield(&mut r);
+        for x in id.ancestors(a).take(bound) { d.u(usize::from(x) as u64) }
+        d.u(1 << 40);
+        for x in id.predecessors(a).take(bound) { d.u(usize::from(x) as u64) }
+        d.u(2 << 40);
+        maybe_yield(&mut r);
+        for x in id.preceding_siblings(a).take(bound) { d.u(usize::from(x) as u64) }
+        d.u(3 << 40);
+        for x in id.following_siblings(a).rev().take(bound) { d.u(usize::from(x) as u64) }
+        d.u(4 << 40);
+        for x in id.children(a).take(bound) { d.u(usize::from(x) as u64); maybe_yield(&mut r); }
+        d.u(5 << 40);
+        for x in id.children(a).rev().take(bound) { d.u(usize::from(x) as u64) }
+        d.u(6 << 40);
+        for x in id.reverse_children(a).take(bound) { d.u(usize::from(x) as u64) }
+        d.u(7 << 40);
+        for x in id.descendants(a).take(bound) { d.u(usize::from(x) as u64) }
+        maybe_yield(&mut r);
+        d.u(8 << 40);
+        for e in id.traverse(a).take(bound) { d.s(&format!("{:?}", e)) }
+        d.u(9 << 40);
+        for e in id.reverse_traverse(a).take(bound) { d.s(&format!("{:?}", e)) }
+        if n.parent().is_none() {
+            maybe_yield(&mut r);
+            d.s(&format!("{}", id.debug_pretty_print(a)));
+            d.s(&format!("{:#?}", id.debug_pretty_print(a)));
+        }
+    }
+    d
+}
+
+/// builds a shared arena by a hostile history (W1) and returns it
+pub fn build_shared(seed: u64, index: u64, len: usize, max_live: usize) -> State<Plain> {
+    let mut rng = Rng::derive(seed, 18, index);
+    let mut cfg = GenCfg::small();
+    cfg.max_live = max_live;
+    cfg.max_slots = max_live * 2;
+    cfg.unchecked_impossible = false;
+    let mut gen = Gen::new(cfg, PERSONAS[(index % PERSONAS.len() as u64) as usize]);
+    let mut st: State<Plain> = State::new();
+    for _ in 0..len {
+        let op = gen.next_op(&mut rng, &st.model);
+        let info = st.step(&op);
+        if info.diverged {
+            break;
+        }
+    }
+    st
+}
